@@ -622,7 +622,9 @@ def handleMore (op : String) (args : List String) (impl : Impl) : Option Ans :=
               | some v => specWeekday v == w
               | none => false
             verdict [("scale", r.ts == e.ts), ("whole_days_1_to_7", decide (delta % nsPerDay = 0 ∧ 1 ≤ delta / nsPerDay ∧ delta / nsPerDay ≤ 7)),
-                     ("lands_on_weekday", leapEdge || wdOk)]
+                     -- a leap second between a UTC epoch and the result moves the TAI time of day by one second: there, the
+                     -- weekday of the UTC date is accepted instead (audit 2: the guard used to excuse the clause altogether)
+                     ("lands_on_weekday", wdOk || (leapEdge && specWeekday (sval r.dur) == w))]
           | none => "FAIL:decode")
       | .other x => "FAIL:" ++ x
       | _ => "FAIL:decode"
